@@ -33,6 +33,7 @@ KNOWN_CLASSES = {
     "oq-panic:bad-composite": "C18-composite-unvalidated-subgates",
     "cq-panic:bad-composite": "C18-composite-unvalidated-subgates",
     "latex-panic:bad-composite": "C13-composite-subbit-panic",
+    "latex-panic:nested-loop": "C13-nested-loop-header-panic",
     "latex-panic:ctrl-between-targets": "C13-ctrl-between-targets-panic",
 }
 
@@ -41,6 +42,7 @@ KNOWN_CLASSES = {
 WITNESS_C18 = {
     "D9-zero-shots-panic": "1 1 | add_conditional_gate 1 0 1 1 0 X | 0",
     "C13-ctrl-between-targets-panic": "3 0 | add_gate 3 1 0 2 CCX | 1",
+    "C13-nested-loop-header-panic": "1 0 | add_gate 1 0 Loop o 3 b 1 1 Loop i 3 c 1 1 X 1 0 1 0 | 1",
     "C13-composite-subbit-panic": "1 0 | add_gate 1 0 Comp c1 1 1 H 1 1 | 1",
     "C19-abort-exec-cbit-ge-64": "1 65 | measure 0 64 | 1",
     "C19-abort-exec-dup-qubits": "1 0 | cx 0 0 | 1",
@@ -79,7 +81,7 @@ SPEC = {
                  "neg_zero_shots", "neg_repeated_qubit", "measure_all_short_same_error", "peek_all_long_same_error",
                  "measure_all_len_rejected_identically", "neg_cbit_ge_64",
                  "neg_controls_gt_64", "cond_arity_same_error", "gate_arity_rejected_identically", "neg_empty_operands_export",
-                 "neg_ctrl_between_targets", "reset_all_no_qubits_exports", "empty_barrier_exports", "neg_cqasm_control_ge_nq", "neg_composite_subgate_out_of_range"],
+                 "neg_ctrl_between_targets", "reset_all_no_qubits_exports", "empty_barrier_exports", "neg_cqasm_control_ge_nq", "neg_composite_subgate_out_of_range", "neg_nested_loop"],
     "drivers": ["drv_c18"],
     "harness_bin": "c18",
     "eq": eq,
@@ -155,11 +157,11 @@ def run(ctx):
         "follows for n <= 2 and C03's gate set from TableauFinite.{gates,measure,reset}_exhaustive), the lift `StabLiftObligation` "
         "from tableaux to StabilizerState is not proved; the record is "
         "validated by the correspondence run (every traced operation of every stabilizer run), not proved",
-        "exports_never_panic_partial covers open_qasm and c_qasm (statements about the exporter models of C11 / C12 on the image "
-        "`ofCirc` of the built circuit, under WellFormed); for latex() no-panic is NOT proved (the C13 model needs more invariants "
-        "than `Shape`; nested Loops of >= 3 iterations do panic): its outcome is compared with the C13 model by the correspondence "
-        "run only. In the driver the implementation's open_qasm / c_qasm outcome class is compared with the C11 / C12 models "
-        "themselves, and the fast classifier Model/ExportClass.lean is cross-checked against them on every generated circuit",
+        "exports_never_panic_partial covers all three exporters as statements about the exporter models of C11 / C12 / C13 on the "
+        "image of the built circuit, under WellFormed; for latex() with the extra hypothesis condOneColumn (a conditional gate is a "
+        "one-column library gate under distinct condition bits: the class C13's no-panic theorem covers; not a panic class, hence "
+        "not a conjunct of WellFormed). In the driver the implementation's open_qasm / c_qasm outcome class is compared with the "
+        "C11 / C12 models themselves, and the fast classifier Model/ExportClass.lean is cross-checked against them on every generated circuit",
         "the register sizes generated stay below 5 qubits (allocation aborts such as 1<<60 qubits are outside the run)",
         "matrix-mode gate routes on a REPEATED qubit: the model stops where Rust asserts on the total element count; with an even "
         "number of ranges the implementation goes on with garbage (accepted as `panic-or-garbage`, inside the dup-qubits class)",
